@@ -15,7 +15,7 @@ CASE_T_T = "C13.CorrT.case"
 HEADER_L = ("From Coq Require Import ZArith List.\n"
             "From TV Require Import Common.Harness C13.Model C13.Law C13.Corr C13.CorrL.")
 CASE_T_L = "C13.CorrL.case"
-PROPS = ["C13/Props.v"]
+PROPS = ["C13/Props.v", "C13/PropsClassOps.v", "C13/PropsClassOps2.v"]
 KIND = {0: "Python", 1: "Any", 2: "Disallow", 3: "ReadOnly", 4: "Constant", 5: "Event", 6: "Typed",
         7: "dunder", 8: "no-rule", 9: "add-remove"}
 WHAT = {1: "outcome-class", 2: "value-read", 3: "stored-afterwards (for remove_trait: a value of the removed trait or of its shadow stays behind)",
@@ -611,8 +611,34 @@ def corpus():
     return cs
 
 
+def proofs_parallel(ctx, files):
+    """ctx.proofs with the Props files re-checked concurrently (coqrun.check_props_parallel): the 108 theorems are
+    spread over three files whose Print Assumptions take about 13 s each."""
+    import os
+    from vlib import coqrun
+    tg = [f[:-2] + ".vo" for f in files]
+    corr = os.path.join(os.path.dirname(files[0]), "Corr.v")
+    if os.path.exists(os.path.join(coqrun.COQDIR, corr)):
+        tg.append(corr[:-2] + ".vo")
+    ok, log = coqrun.ensure_built(targets=tg)
+    if not ok:
+        ctx.notes.append("library build failed: " + log[-1500:])
+    res = coqrun.check_props_parallel(files, ctx.scratch)
+    for t in res["theorems"]:
+        good = ok and res["ok"] and t in res["assumptions"]
+        ctx.obligation("theorem " + t, good, res["assumptions"].get(t, "not checked"))
+    ctx.cov["checker_cmd"] = "make -C coq (coq_makefile, full .vo build) && coqc -Q coq TV " + " ".join(res["files"])
+    ctx.cov.setdefault("examples_nonvacuity", [])
+    ctx.cov["examples_nonvacuity"] += res["examples"]
+    for t, a in res["assumptions"].items():
+        ctx.assumptions.append("%s: %s" % (t, " ".join(a.split())))
+    if not (ok and res["ok"]):
+        ctx.notes.append(res["log"][-3000:])
+    return ok and res["ok"], (log if not ok else "") + res["log"]
+
+
 def run(ctx):
-    ok, log = ctx.proofs(PROPS)
+    ok, log = proofs_parallel(ctx, PROPS)
     ctx.cov["trusted_base"] += [
         "tools/drivers/c13_driver.py (fresh class hierarchy per case, atom <-> Python value mapping, exception class "
         "enum) and tools/props/c13.py (generator, C3 filter for legal base lists)",
